@@ -12,7 +12,7 @@ EXPLANATION = (
     "expressions over config fields and the applied count, are identical; (R3) the window subtraction is guarded against underflow; "
     "(R4) for a rename both names are backed up; (R5) the backup is written from the state returned by ModifiedFiles::rollback for "
     "that very PatchStatus, iterating in reverse, after the modified files were saved; (R6) applied-patches is appended by a forward "
-    "loop over the applied prefix. Not decided: that the bytes and modes under .pc/ equal the pre-patch ones for every chain of patches."
+    "loop over the applied prefix. (R9) a backup file is opened emptying it, on every path of save_backup_file that returns normally. Not decided: that the bytes and modes under .pc/ equal the pre-patch ones for every chain of patches."
 )
 LEVEL_NOTE = "Undecided: byte/mode equality of the backups with the pre-patch state (content level)."
 
